@@ -19,12 +19,12 @@ RULE = ("part D: get_capabilities() against a unit that serves two pages, the re
         "after a delay from {0.05,1.0,1.95,2.05,3.0,3.95,4.05,6.5} s; V2 and V3; oracle = reference model of the retry loop "
         "(transmissions at 0,2,4,.. while nothing has arrived; return at the earliest arrival T*<2r with floor(T*/2)+1 "
         "byte-identical transmissions, else TimeoutError at 2r after exactly r) compared on transmission count, virtual return "
-        "time and outcome; with r=3 also Device._send_command()==[] and refresh() -> online False on timeout; a quarter of the patterns run with a configured connection lifetime that expires mid-exchange; on V3 a quarter of the patterns with unanswered transmissions have the device emit marker-free bytes instead of staying silent (no response by C04's skipping rule; the reference model is unchanged). an error packet as answer to transmission k ends the exchange with a protocol error after exactly k transmissions, at LAN and device level. Part B "
-        "(exhaustive): every single fault and ordered pair from {drop, drop incl. handshake, error packet, error packet also in reply to the re-authentication handshake, garbage, peer close, peer reset (mid-exchange or while idle), "
+        "time and outcome; with r=3 also Device._send_command()==[] and refresh() -> online False on timeout; a quarter of the patterns run with a configured connection lifetime that expires mid-exchange; a quarter with a jump of the host's wall clock (suspend/resume, clock step: -3 s .. +1 h) during the exchange, which the reference model ignores; on V3 a quarter of the patterns with unanswered transmissions have the device emit marker-free bytes instead of staying silent (no response by C04's skipping rule; the reference model is unchanged). an error packet as answer to transmission k ends the exchange with a protocol error after exactly k transmissions, at LAN and device level. Part B "
+        "(exhaustive): every single fault and ordered pair from {drop, drop incl. handshake, error packet, error packet also in reply to the re-authentication handshake, garbage, peer close, peer reset (mid-exchange or while idle), graceful close by the peer while idle (FIN: the transport asks the protocol's eof_received() as asyncio does), an answer followed by the peer's FIN, the unit coming back under a new address while configured by host name, "
         "connect refused, connect hangs, cancel at each protocol phase} x {V2,V3} x {fresh object, established connection}, "
         "followed by a clean exchange immediately or after a pause, with or without a configured connection lifetime (1..60 s), at LAN level or through AirConditioner.refresh() (on V3 the user's single authenticate() call may have been abandoned during the 1 s settle pause after the handshake): faulty exchange ends within contract (frames / "
         "ProtocolError / TimeoutError / cancellation) and the clean exchange returns the device's reply (fresh handshake on V3 "
-        "when needed) and refresh() reports online. Part C (Hypothesis): longer random fault sequences. Non-trivial: >=1 "
+        "when needed) and refresh() reports online. Part C (Hypothesis): longer random fault sequences, optionally against a unit that hangs up after every answer (FIN/RST, seen after or in the same loop pass as the answer). Non-trivial: >=1 "
         "retransmission, or a fault followed by a successful exchange. Distinct by pattern.")
 ASSUMPTIONS = ["delays avoid exact ties with the 2 s retransmission grid",
                "handshake replies are prompt or never (late handshake replies depend on undocumented device nonce policy, DESIGN 7)"]
@@ -33,7 +33,7 @@ TOKEN = hashlib.sha512(b"c08 token").digest()
 KEY = hashlib.sha256(b"c08 key").digest()
 FRAME = bytes.fromhex("aa21ac8d000000000003418100ff03ff000200000000000000000000000003016971")
 DELAYS = [0.05, 1.0, 1.95, 2.05, 3.0, 3.95, 4.05, 6.5]
-FAULTS = ["drop", "drop_hs", "error", "error_hs", "garbage", "close", "reset", "idle_reset", "refuse", "hang", "cancel:connect",
+FAULTS = ["drop", "drop_hs", "error", "error_hs", "garbage", "close", "reset", "idle_reset", "idle_fin", "answer_fin", "lease", "refuse", "hang", "cancel:connect",
           "cancel:hs_wait", "cancel:hs_pause", "cancel:data_wait", "cancel:retransmit"]
 
 
@@ -109,6 +109,11 @@ def check_retry(case: dict):
         dev.on_data = on_data
         t0 = loop.time()
         n0 = len(dev.transmissions)
+        if case.get("suspend"):
+            # the host's wall clock jumps during the exchange (suspend/resume, VM pause, NTP step): the loop's monotonic clock,
+            # which the timeouts run on, does not
+            at, jump = case["suspend"]
+            loop.call_later(at, lambda: setattr(loop, "wall_skew", loop.wall_skew + jump))
         try:
             if level == "lan":
                 out["frames"] = await lan.send(FRAME, retries=r)
@@ -260,9 +265,12 @@ def check_faults(case: dict):
                 return ("close",)
             if k == "reset":
                 return ("reset",)
+            if k == "answer_fin":
+                return ("answer", {"then": "fin"})       # the unit answers, then closes the connection (FIN)
             return None
 
         dev.on_data = on_data
+        dev.hangup = case.get("hangup")
         orig_hs = dev._handshake
 
         def hs(conn, p):
@@ -275,8 +283,13 @@ def check_faults(case: dict):
             orig_hs(conn, p)
         dev._handshake = hs
 
-        ac = AC(ip="10.0.0.9", port=6444, device_id=9)
+        by_name = "lease" in faults
+        if by_name:
+            # the user configured the unit by host name; the name is looked up at every connect
+            net.resolver["ac.lan"] = "10.0.0.9"
+        ac = AC(ip="ac.lan" if by_name else "10.0.0.9", port=6444, device_id=9)
         lan = ac._lan
+        leases = {"n": 0, "ip": "10.0.0.9"}
         if case.get("lifetime"):
             # configuration: connections are renewed after this many seconds (recovery must not depend on it)
             ac.set_max_connection_lifetime(case["lifetime"])
@@ -342,6 +355,21 @@ def check_faults(case: dict):
                 # the peer resets the connection while nothing is in flight; the next exchange is the "faulty" one
                 for c in dev.conns:
                     c.close(reset=True)
+                await asyncio.sleep(0.01)
+            if f == "idle_fin":
+                # the peer closes the idle connection gracefully (FIN)
+                for c in dev.conns:
+                    c.close()
+                await asyncio.sleep(0.01)
+            if f == "lease":
+                # the unit reboots and comes back under a new address (new DHCP lease); the configured name follows it
+                for c in dev.conns:
+                    c.close(reset=True)
+                net.tcp_hosts.pop((leases["ip"], 6444), None)
+                leases["n"] += 1
+                leases["ip"] = f"10.0.1.{leases['n']}"
+                net.listen(leases["ip"], 6444, dev)
+                net.resolver["ac.lan"] = leases["ip"]
                 await asyncio.sleep(0.01)
             if f == "refuse":
                 dev.connect_script.append("refuse")
@@ -547,6 +575,8 @@ def run(ctx) -> None:
                     case["junk"] = ["00", "5a5a0111", "0011223344556677", "83", "ff" * 40][(n // 4) % 5]
                 if n % 4 == 2:
                     case["idle_before"] = [1.0, 35.0, 95.0, 700.0][(n // 4) % 4]
+                if n % 4 == 0:
+                    case["suspend"] = [[0.5, 5.0], [1.0, 30.0], [2.5, 3600.0], [0.1, -3.0], [3.0, 7.0]][(n // 4) % 5]
                 ctx.check(case, lambda c: _run_one(ctx, c))
                 if r == 3 and (not ctx.quick or n % 4 == 0):
                     for level in ("device", "refresh"):
@@ -618,5 +648,6 @@ def run(ctx) -> None:
         "faults": st.lists(st.sampled_from(FAULTS), min_size=1, max_size=6),
         "pause": st.sampled_from([0.0, 0.0, 0.01, 0.04, 0.06, 0.5, 1.2, 3.0, 30.0]),
         "cancel_jitter": st.sampled_from([0.0, 0.0, 0.01, -0.01, 0.025]),
-        "garbage": st.binary(min_size=1, max_size=40).map(lambda b: b.hex()), "start": st.sampled_from(["auth", "auth", "auth_cancel_pause"]), "near_wrap": st.sampled_from([0, 0, 0, 17]), "level": st.sampled_from(["lan", "lan", "device"]), "lifetime": st.sampled_from([None, None, 1, 3, 10, 60])})
+        "garbage": st.binary(min_size=1, max_size=40).map(lambda b: b.hex()), "start": st.sampled_from(["auth", "auth", "auth_cancel_pause"]), "near_wrap": st.sampled_from([0, 0, 0, 17]), "level": st.sampled_from(["lan", "lan", "device"]), "lifetime": st.sampled_from([None, None, 1, 3, 10, 60]),
+        "hangup": st.sampled_from([None, None, None, "fin", "rst", "fin_same", "rst_same"])})
     ctx.hyp("part C", cases, lambda c: _run_one(ctx, c), ctx.n(1600, 96000))
